@@ -18,6 +18,9 @@ SPEC = {
         {"name": "long-session", "pkg": O4, "kind": "rapid", "run": "^TestVerifC05LongSession$",
          "quick": {"checks": 40, "shards": 4, "timeout": 300},
          "thorough": {"checks": 300, "shards": 8, "timeout": 3000}},
+        {"name": "reflect", "pkg": O4, "kind": "rapid", "run": "^TestVerifC05Reflect$",
+         "quick": {"checks": 60, "shards": 2, "timeout": 300},
+         "thorough": {"checks": 600, "shards": 8, "timeout": 3000}},
         {"name": "bit-enum", "pkg": O4, "kind": "plain", "run": "^TestVerifC05BitEnum$",
          "quick": {"shards": 4, "timeout": 300}, "thorough": {"shards": 16, "timeout": 3000}},
         {"name": "fuzz", "pkg": O4, "kind": "fuzz", "fuzz": "FuzzVerifC05TamperedStream",
